@@ -325,7 +325,15 @@ def evaluate(prop: Prop, cases: list[dict[str, Any]], workers: int) -> list[dict
             rec["disagree"] = "the model driver rejected the observation: " + str(rec["model"]["driver_error"])
         elif rec["model"] is not None:
             rec["disagree"] = prop.compare(rec["case"], rec["impl"], rec["model"])
-        rec["monitor"] = prop.monitor(rec["case"], rec["impl"])
+        try:
+            rec["monitor"] = prop.monitor(rec["case"], rec["impl"])
+        except Exception as exc:  # noqa: BLE001 - the observation is outside what the monitor can interpret
+            import traceback
+
+            rec["monitor"] = []
+            if not rec["disagree"]:
+                rec["disagree"] = ("the monitor could not interpret what the implementation did: "
+                                   + "".join(traceback.format_exception(exc))[-500:])
     return records
 
 
